@@ -39,11 +39,11 @@ func (mluc *MultiLocalisedUnicode) getString(language [2]byte, country [2]byte) 
 	return decodeUTF16BE(countries[country])
 }
 
-func (mluc *MultiLocalisedUnicode) getStringForLanguage(language [2]byte) string {
+func (mluc *MultiLocalisedUnicode) getStringForLanguage(language [2]byte) (string, bool) {
 	for _, s := range mluc.entriesByLanguageCountry[language] {
-		return decodeUTF16BE(s)
+		return decodeUTF16BE(s), true
 	}
-	return ""
+	return "", false
 }
 
 func (mluc *MultiLocalisedUnicode) setString(language [2]byte, country [2]byte, text []byte) {
